@@ -17,6 +17,7 @@ from __future__ import annotations
 
 import os
 import shutil
+import sys
 import threading
 import time
 
@@ -27,6 +28,10 @@ HORIZON = 5000
 
 
 class _Abort(BaseException):
+    pass
+
+
+class _Deadlock(Exception):
     pass
 
 
@@ -82,6 +87,74 @@ class _ActorNames:
         return "vt%d_%04d" % (i, self.c[i])
 
 
+class CoopRLock:
+    """Stand-in for threading.(R)Lock inside code explored with line-level scheduling: acquiring a lock
+    held by another actor does not block the OS thread (the scheduler would hang) but makes the actor
+    *disabled* until the lock is free.  Outside a scheduled execution it behaves like an uncontended lock."""
+
+    def __init__(self):
+        self.owner = None
+        self.count = 0
+
+    def acquire(self, blocking=True, timeout=-1):
+        ctl = getattr(fsint._tls, "ctl", None)
+        me = getattr(fsint._tls, "actor", None)
+        if not isinstance(ctl, SchedController):
+            self.count += 1
+            return True
+        while self.owner is not None and self.owner != me:
+            if not blocking:
+                return False
+            ctl.wait_for_lock(me, self)
+        self.owner = me
+        self.count += 1
+        return True
+
+    def release(self):
+        self.count -= 1
+        if self.count <= 0:
+            self.count = 0
+            self.owner = None
+
+    def __enter__(self):
+        self.acquire()
+        return self
+
+    def __exit__(self, *a):
+        self.release()
+
+
+class coop_threading:
+    """Drop-in for the `threading` name of a module under line-level exploration."""
+
+    RLock = CoopRLock
+    Lock = CoopRLock
+
+    def __getattr__(self, n):
+        return getattr(threading, n)
+
+
+coop_threading = coop_threading()
+
+
+def _line_tracer(actor, ctl, files, functions=None):
+    """In-memory actors (threads sharing Python objects): every source line executed inside the given
+    files (optionally only inside the named functions) is a scheduling point."""
+
+    def local(frame, event, arg):
+        if event == "line":
+            ctl.before(actor, "line", "%s:%d" % (os.path.basename(frame.f_code.co_filename), frame.f_lineno), {})
+        return local
+
+    def glob(frame, event, arg):
+        if event == "call" and frame.f_code.co_filename in files:
+            if functions is None or frame.f_code.co_name in functions:
+                return local
+        return None
+
+    return glob
+
+
 class _Worker:
     """Long-lived actor thread (creating a thread costs ~2 ms in this sandbox)."""
 
@@ -126,6 +199,7 @@ class SchedController(fsint.BaseController):
         self.steps = 0
         self.after_hooks = []
         self.cur = None
+        self.blocked = [None] * nactors  # CoopRLock an actor is waiting for
 
     # called on actor threads -------------------------------------------------
     def before(self, actor, op, path, info):
@@ -144,6 +218,19 @@ class SchedController(fsint.BaseController):
     def after(self, actor, op, path, info, res):
         for h in self.after_hooks:
             h(actor, op, path, info, res)
+
+    def wait_for_lock(self, actor, lock):
+        """Called on an actor thread: the actor is disabled until `lock` is free."""
+        if self.aborting:
+            raise _Abort()
+        self.blocked[actor] = lock
+        self.pending[actor] = ("blocked", "lock", {})
+        self.main.release()
+        self.sems[actor].acquire()
+        self.blocked[actor] = None
+        if self.aborting:
+            raise _Abort()
+        self.pending[actor] = None
 
 
 class Scenario:
@@ -235,6 +322,8 @@ class Explorer:
         def body(i):
             fsint.attach(ctl, i)
             ctl.sems[i].acquire()  # wait for first scheduling
+            if getattr(sc, "trace_files", None):
+                sys.settrace(_line_tracer(i, ctl, sc.trace_files, getattr(sc, "trace_functions", None)))
             try:
                 if ctl.aborting:
                     raise _Abort()
@@ -254,6 +343,7 @@ class Explorer:
             except _Abort:
                 ex.results.setdefault(i, ("abort", None))
             finally:
+                sys.settrace(None)
                 ctl.finished[i] = True
                 fsint.detach()
                 ctl.main.release()
@@ -272,9 +362,13 @@ class Explorer:
         step = 0
         try:
             while True:
-                en = [i for i in range(n) if not ctl.finished[i]]
-                if not en:
+                alive = [i for i in range(n) if not ctl.finished[i]]
+                if not alive:
                     break
+                en = [i for i in alive if ctl.blocked[i] is None or ctl.blocked[i].owner in (None, i)]
+                if not en:
+                    ex.point_viol.append(("deadlock", "actors %r all wait for locks held by each other" % alive))
+                    raise _Deadlock()
                 if running is not None and running in en:
                     canon = [running] + [i for i in en if i != running]
                     r_en = True
@@ -307,7 +401,7 @@ class Explorer:
                 step += 1
                 if step > HORIZON:
                     raise HarnessError("horizon exceeded in scenario %s" % sc.name)
-        except BaseException:
+        except BaseException as e:
             ctl.aborting = True
             for i in range(n):
                 ctl.sems[i].release()
@@ -315,6 +409,8 @@ class Explorer:
                 w.wait_idle(2)
             self._pool = None  # do not reuse threads that may be stuck
             ctl.release()
+            if isinstance(e, _Deadlock):
+                return ex
             raise
         for w in workers:
             if not w.wait_idle(10):
